@@ -11,6 +11,57 @@ pub struct Shared {
     pub log: Vec<(usize, &'static str, String, Option<String>)>,
     /// (wrapper id, number of calls still to let pass)
     pub fault: Option<(usize, usize)>,
+    /// armed: bit 0 - reads fail, bit 1 - writes and flushes fail, on every handle handed out by a wrapper
+    pub io_fault: u8,
+}
+
+fn injected_io() -> std::io::Error {
+    std::io::Error::new(std::io::ErrorKind::Other, "injected handle fault")
+}
+
+/// every handle a wrapper hands out: while the I/O fault is armed its reads / writes / flushes fail (seek passes)
+pub struct FaultyHandle<T: ?Sized> {
+    pub shared: Arc<Mutex<Shared>>,
+    pub inner: Box<T>,
+}
+
+impl<T: ?Sized> FaultyHandle<T> {
+    fn armed(&self, bit: u8) -> bool {
+        self.shared.lock().unwrap().io_fault & bit != 0
+    }
+}
+
+impl std::io::Read for FaultyHandle<dyn SeekAndRead + Send> {
+    fn read(&mut self, buf: &mut [u8]) -> std::io::Result<usize> {
+        if self.armed(1) {
+            return Err(injected_io());
+        }
+        self.inner.read(buf)
+    }
+}
+impl std::io::Seek for FaultyHandle<dyn SeekAndRead + Send> {
+    fn seek(&mut self, pos: std::io::SeekFrom) -> std::io::Result<u64> {
+        self.inner.seek(pos)
+    }
+}
+impl std::io::Write for FaultyHandle<dyn SeekAndWrite + Send> {
+    fn write(&mut self, buf: &[u8]) -> std::io::Result<usize> {
+        if self.armed(2) {
+            return Err(injected_io());
+        }
+        self.inner.write(buf)
+    }
+    fn flush(&mut self) -> std::io::Result<()> {
+        if self.armed(2) {
+            return Err(injected_io());
+        }
+        self.inner.flush()
+    }
+}
+impl std::io::Seek for FaultyHandle<dyn SeekAndWrite + Send> {
+    fn seek(&mut self, pos: std::io::SeekFrom) -> std::io::Result<u64> {
+        self.inner.seek(pos)
+    }
 }
 
 #[derive(Debug)]
@@ -63,15 +114,18 @@ impl FileSystem for HarnessFS {
     }
     fn open_file(&self, path: &str) -> VfsResult<Box<dyn SeekAndRead + Send>> {
         self.enter("open_file", path, None)?;
-        self.inner.open_file(path)
+        let inner = self.inner.open_file(path)?;
+        Ok(Box::new(FaultyHandle { shared: self.shared.clone(), inner }))
     }
     fn create_file(&self, path: &str) -> VfsResult<Box<dyn SeekAndWrite + Send>> {
         self.enter("create_file", path, None)?;
-        self.inner.create_file(path)
+        let inner = self.inner.create_file(path)?;
+        Ok(Box::new(FaultyHandle { shared: self.shared.clone(), inner }))
     }
     fn append_file(&self, path: &str) -> VfsResult<Box<dyn SeekAndWrite + Send>> {
         self.enter("append_file", path, None)?;
-        self.inner.append_file(path)
+        let inner = self.inner.append_file(path)?;
+        Ok(Box::new(FaultyHandle { shared: self.shared.clone(), inner }))
     }
     fn metadata(&self, path: &str) -> VfsResult<VfsMetadata> {
         self.enter("metadata", path, None)?;
